@@ -219,8 +219,26 @@ class TmpDir:
 
 
 def file_tree(path):
-    with bz2.BZ2File(path, 'r') as f:
-        return canon(json.loads(f.read().decode('utf-8')))
+    try:
+        with bz2.BZ2File(path, 'r') as f:
+            return canon(json.loads(f.read().decode('utf-8')))
+    except Exception as e:
+        return 'unreadable:' + type(e).__name__
+
+
+def fresh_mem(path):
+    """Memory of a new handler constructed on `path` (or the exception class the constructor raised)."""
+    try:
+        return mem_of(JsonCacheHandler(path))
+    except Exception as e:
+        return 'constructor-raises:' + type(e).__name__
+
+
+def unexpected(e):
+    """Short description of an exception the real code was not supposed to raise."""
+    import traceback
+    tb = traceback.extract_tb(e.__traceback__)
+    return '%s: %s (%s)' % (type(e).__name__, str(e)[:120], ' <- '.join('%s:%d' % (f.name, f.lineno) for f in tb[-3:]))
 
 
 def write_payload(path, tree):
